@@ -35,7 +35,8 @@ def def_msg(draw):
         attrs["label"] = draw(st.sampled_from(["L", "l 2"]))
     if draw(st.booleans()):
         attrs["group"] = draw(st.sampled_from(["G", "H"]))
-    names = draw(st.lists(st.sampled_from(ELEMS[:3]), unique=True, min_size=1, max_size=3))
+    # (a definition without elements is unusual but the parser accepts it; the client must still track its state)
+    names = draw(st.lists(st.sampled_from(ELEMS[:3]), unique=True, min_size=0, max_size=3))
     children = []
     for n in names:
         ca = {"name": n}
